@@ -329,14 +329,27 @@ namespace Spec
 
 /-! ### C15 -/
 
-/-- An UPDATE is precise w.r.t. the object `u` the preceding GET returned: it is `u` plus exactly the
-    escalator taint stamped `nowSec` (or `nowSec + 1`: the write may straddle a second) on an object
-    that had none, or `u` minus its first escalator taint; nothing else differs. -/
+/-- An UPDATE is precise w.r.t. the object `u` the preceding GET returned: every field other than the
+    taint list is that of `u`, and the taint list is — up to order, which the property does not fix —
+    that of `u` plus exactly the escalator taint stamped `nowSec` (or `nowSec + 1`: the write may
+    straddle a second) on an object that had none, or that of `u` minus exactly one of its escalator
+    taints. -/
 def C15.preciseUpdate (nowSec : Int) (effect : String) (u obj : Node) : Bool :=
-  (!hasTaint escKey u &&
-    (obj == { u with taints := u.taints ++ [newEscTaint nowSec effect] } ||
-     obj == { u with taints := u.taints ++ [newEscTaint (nowSec + 1) effect] })) ||
-  (hasTaint escKey u && obj == { u with taints := swapRemoveFirst (fun t => t.key == escKey) u.taints })
+  ({ obj with taints := u.taints } == u) &&
+  ((!hasTaint escKey u &&
+    (obj.taints.isPerm (u.taints ++ [newEscTaint nowSec effect]) ||
+     obj.taints.isPerm (u.taints ++ [newEscTaint (nowSec + 1) effect]))) ||
+   (hasTaint escKey u && u.taints.any (fun t => t.key == escKey && obj.taints.isPerm (u.taints.erase t))))
+
+/-- Order of the taints inside UPDATE objects is not part of any property: comparisons of journals
+    go through this normal form. -/
+def sortTaints (ts : List Taint) : List Taint :=
+  ts.mergeSort (fun a b => decide ((a.key ++ "\x00" ++ a.value ++ "\x00" ++ a.effect) ≤ (b.key ++ "\x00" ++ b.value ++ "\x00" ++ b.effect)))
+
+def canonTaints (j : Journal) : Journal :=
+  j.map (fun e => match e.call with
+    | .updateNode obj => { e with call := .updateNode { obj with taints := sortTaints obj.taints } }
+    | _ => e)
 
 /-- Walk a journal paired with the recorded responses: every UPDATE must directly follow a successful
     GET of the same node and be precise w.r.t. the object that GET returned. Returns offending names. -/
